@@ -309,7 +309,9 @@ def classify(case, impl, model, oracle):
 CHECK = {
     "property": "C16",
     "props": "Props/C16.v",
-    "theorems": [],
+    "theorems": ["c16_labels", "c16_label_index", "c16_eq", "c16_hash", "c16_hash_inj", "c16_order_rfc4034", "c16_order_total",
+                 "c16_order_eq_consistent", "c16_subdomain", "c16_is_root", "c16_text_accepts", "c16_display",
+                 "c16_text_roundtrip", "c16_builder_partial", "c16_builder_finish"],
     "allowed_axioms": [],
     "suites": [{
         "name": "names", "impl_bin": "impl_c16", "extract": "Extract/ExC16.v", "driver": "run_c16.ml",
